@@ -1115,6 +1115,7 @@ def manifold_part(run, r, runner, n):
         t = None
         N, nst = c["N"], c["nstages"]
         W = 0.0
+        wamb = False
         seen = set()
         prev_c = None
         okrun = True
@@ -1150,8 +1151,10 @@ def manifold_part(run, r, runner, n):
                         inc = [x - y for x, y in zip(cn, co)]
                         if v["kind"] == "p":
                             inc = [float(shortest(Fr(cn[0]) - Fr(co[0]), Fr(v["P"])))]
+                            if abs(abs(inc[0]) - v["P"] / 2) < 1e-9:
+                                wamb = True       # the centre moves by half a period in one step: two closest images (DESIGN 3.2)
                         W += sum(x * y for x, y in zip(f, inc))
-                if not close(W, o["W"], 1e-9) and abs(W - o["W"]) > 1e-11:
+                if not wamb and not close(W, o["W"], 1e-9) and abs(W - o["W"]) > 1e-11:
                     run.violation("work:centers:anytype", "step %d: accumulated work %r, sum of force . centre increment over the steps so far %r" % (t, o["W"], W), rp)
             seen.add(t)
         if not okrun:
